@@ -20,7 +20,7 @@ ASSUMPTIONS = ["node labels are unique strings so that rows of the returned tabl
 EXHAUSTIVE = {"quick": ["all strings len<=3 over AC as one repertoire, k=1..3, 4 clustering methods"],
               "thorough": ["all strings len<=4 over AC and len<=3 over ACD as repertoires, k=1..3, 4 clustering methods",
                            "hierarchical: 4 methods x 2 criteria x t in 1..4 on fixed witnesses"]}
-REQUIRE = {"hier_empty_linkage_kws": 1, "graph_lists_over_65536_entries": 1, "graph_synthetic_cases": 1, "hier_explicit_metric_calls": 13, "hier_metric_sequences": 3, "graph_cc_cases": 13, "graph_community_cases": 16, "empty_neighbour_list_cases": 2, "isolated_node_cases": 15,
+REQUIRE = {"hier_edited_in_place_sequences": 6, "hier_edited_in_place_calls": 18, "hier_empty_linkage_kws": 1, "graph_lists_over_65536_entries": 1, "graph_synthetic_cases": 1, "hier_explicit_metric_calls": 13, "hier_metric_sequences": 3, "graph_cc_cases": 13, "graph_community_cases": 16, "empty_neighbour_list_cases": 2, "isolated_node_cases": 15,
            "d0_edge_cases": 10, "series_node_label_cases": 8, "hier_cases": 27, "hier_table_cases": 6, "hier_nondefault_index": 8,
            "identity_cases": 10, "identity_multi_member": 9, "hier_t_zero_cases": 3, "asymmetric_neighbour_lists": 3, "duplicate_node_label_cases": 3}
 SHARDS = {"quick": 4, "thorough": 16}
@@ -279,6 +279,39 @@ def k_hier_metrics(ctx, seqs, weights, method, t, rows=None):
         _cmp_hier(ctx, out, wl, wc, f"explicit-metric:step{min(step, 1)}", n)
 
 
+def k_hier_edited(ctx, seqs, edits, method, t, container, explicit_metric):
+    """The caller's own container clustered, edited in place (same length), clustered again with the same metric argument:
+    every call is SciPy's clustering of the distances of the container's PRESENT content."""
+    import numpy as np
+    import pandas as pd
+    import scipy.cluster.hierarchy as hc
+    import pyrepseq as prs
+    from pyrepseq.metric import Levenshtein
+    ctx.count("hier_edited_in_place_sequences")
+    ctx.nontriv(["he", seqs, edits, method, t, container, explicit_metric])
+    ctx.sample("hier_edited", {"seqs": seqs[:6], "edits": edits, "container": container})
+    cur = list(seqs)
+    x = cur if container == "list" else np.array(cur, dtype=object) if container == "ndarray" else pd.Series(cur, dtype=object)
+    if container == "list":
+        x = list(cur)
+    metric = Levenshtein() if explicit_metric else None
+    for step in range(len(edits) + 1):
+        if step:
+            i, new = edits[step - 1]
+            if container == "series":
+                x.iloc[i] = new
+            else:
+                x[i] = new
+            cur[i] = new
+        d = np.array(_condensed(cur, O.lev))
+        wl = hc.linkage(d, method=method, optimal_ordering=True)
+        wc = hc.fcluster(wl, t=t, criterion="distance")
+        kw = dict(metric=metric) if explicit_metric else {}
+        out = ctx.call(prs.hierarchical_clustering, x, linkage_kws=dict(method=method, optimal_ordering=True), cluster_kws=dict(t=t, criterion="distance"), **kw)
+        ctx.count("hier_edited_in_place_calls")
+        _cmp_hier(ctx, out, wl, wc, f"same-object-edited:step{min(step, 1)}", len(cur))
+
+
 def _cmp_hier(ctx, out, wl, wc, key, n):
     import numpy as np
     if not out.ok:
@@ -373,7 +406,7 @@ def k_identity(ctx, seqs, t):
                       {"hierarchical": sorted(sorted(x) for x in hp), "graph": sorted(sorted(x) for x in gp)}, sorted(sorted(x) for x in op))
 
 
-KINDS = {"graph": k_graph, "hier": k_hier, "hier_table": k_hier_table, "identity": k_identity, "hier_metrics": k_hier_metrics, "graph_synthetic": k_graph_synthetic}
+KINDS = {"graph": k_graph, "hier": k_hier, "hier_table": k_hier_table, "identity": k_identity, "hier_metrics": k_hier_metrics, "hier_edited": k_hier_edited, "graph_synthetic": k_graph_synthetic}
 METHODS = ["cc", "fastgreedy", "multilevel", "leiden"]
 
 
@@ -446,6 +479,17 @@ def generate(tier, seed):
         yield "hier_metrics", {"seqs": seqs, "weights": ws, "method": ["average", "single", "complete"][i % 3], "t": rng.choice([1, 2, 4])}, i < 4
         rows = [[rng.choice(cells0), rng.choice(cells0)] for _ in range(rng.randint(3, 9))]
         yield "hier_metrics", {"seqs": None, "rows": rows, "weights": [[1, 1], [3, 1], [1, 1], [1, 2]], "method": "average", "t": rng.choice([2, 4])}, i < 3
+    # the same container object clustered, edited in place, clustered again (threshold scans over a collection the caller keeps editing)
+    fam = ["CASSF", "CASF", "CAWSVGF", "CAWSVGQF", "CATTF", "CASSLGF"]
+    for ci, cont in enumerate(("list", "ndarray", "series")):
+        for em in (False, True):
+            yield "hier_edited", {"seqs": fam, "edits": [[0, "CAWSVF"], [5, "W"]], "method": ["single", "average", "complete"][ci], "t": 1 + ci,
+                                  "container": cont, "explicit_metric": em}, True
+    for i in range(30 * TS if thorough else 4):
+        seqs = G.small_multiset(rng, pools[i % 3], 4, 10)
+        edits = [[rng.randrange(len(seqs)), rng.choice(pools[(i + 1) % 3])] for _ in range(2)]
+        yield "hier_edited", {"seqs": seqs, "edits": edits, "method": ["average", "single"][i % 2], "t": rng.choice([1, 2, 3]),
+                              "container": ["list", "ndarray", "series"][i % 3], "explicit_metric": i % 2 == 0}, False
     # paired tables whose chains are each at most 255 letters while alpha + beta distances exceed 255
     for j in range(4 if thorough else 2):
         rows = [[G.rand_string(rng, ["ACDEF", "GHIKL", "MNPQR"][r % 3], 135, 200), G.rand_string(rng, ["STVWY", "ACDEF", "GHIKL"][r % 3], 135, 200)] for r in range(5)]
